@@ -18,6 +18,9 @@ var verifC07Tables = [][]verifRouteDef{
 	{{"/a/{v}.x", []string{"GET"}}, {"/a/{v}", []string{"HEAD"}}},
 	{{"/x{v}", []string{"DELETE", "PUT"}}, {"/{v}", []string{"GET"}}},
 	{{"/a/{v}/{w}", []string{"GET"}}, {"/a/{v}", []string{"GET"}}, {"/{v}", []string{"POST"}}},
+	{{`/a/{v:\d+}`, []string{"POST"}}, {"/a/{w}", []string{"GET", "POST"}}},
+	{{`/{v:\d+}`, []string{"POST"}}, {"/{w}", []string{"GET", "POST", "HEAD"}}},
+	{{"/a/{v}", []string{"GET", "POST"}}, {`/a/{w:\d+}`, []string{"POST"}}, {"/a/{u}", []string{"HEAD"}}},
 }
 
 func verifNamedTable(r *Router, defs []verifRouteDef) {
